@@ -34,12 +34,14 @@ class Spec:
 
     def apply(self, o):
         op = o["op"]
-        if op in ("track", "tracknx", "validate"):
+        if op in ("track", "tracknx", "validate", "validate_stale"):
             k = (o["s"], o["t"], o["p"])
             if o["t"] < 4:                       # transport enabled at the station
-                if k not in self.life:
+                fresh = k not in self.life
+                if fresh:
                     self.life[k] = [0, False, False]
-                if op == "validate":
+                # AddRegistration validates the caller's own object only: the tracked one, or a new one
+                if op == "validate" or (op == "validate_stale" and fresh):
                     self.life[k][2] = True
         elif op == "active":
             k = (o["s"], o["t"], o["p"])
@@ -160,6 +162,10 @@ def V(s, t, p):
     return {"op": "validate", "s": s, "t": t, "p": p}
 
 
+def VS(s, t, p):
+    return {"op": "validate_stale", "s": s, "t": t, "p": p}
+
+
 def A(s, t, p):
     return {"op": "active", "s": s, "t": t, "p": p}
 
@@ -219,7 +225,10 @@ def corpus_cases():
     # expired but not yet swept: still there until the sweep
     cs.append(mk_case([V(3, 2, 2), ADV(700), L(2), A(3, 2, 2), SW, L(2), ADV(20900), SW, L(2), ADV(1), SW, L(2)]))
     # unknown transport
-    cs.append(mk_case([T(0, 4, 0), V(0, 4, 0), TNX(0, 4, 0), A(0, 4, 0), SW, C(0)]))
+    cs.append(mk_case([T(0, 4, 0), V(0, 4, 0), VS(0, 4, 0), TNX(0, 4, 0), A(0, 4, 0), SW, C(0)]))
+    # AddRegistration with an object that is not the tracked one validates nothing, and does not refresh
+    cs.append(mk_case([T(4, 0, 0), VS(4, 0, 0), L(0), ADV(601), SW, C(0), VS(4, 0, 0), L(0), ADV(300), VS(4, 0, 0), T(4, 0, 0),
+                       ADV(301), SW, C(0)]))
     return cs
 
 
@@ -229,14 +238,14 @@ def exhaustive_cases(depth, small):
     if small:
         ops = [T(0, 0, 0), T(0, 2, 0), V(0, 0, 0), A(0, 0, 0), A(0, 2, 0), ADV(301), ADV(21300), SW]
     else:
-        ops = [T(0, 0, 0), T(0, 2, 0), T(0, 0, 1), T(100, 0, 0), T(101, 0, 0), V(0, 0, 0), V(0, 2, 0), A(0, 0, 0),
+        ops = [T(0, 0, 0), T(0, 2, 0), T(0, 0, 1), T(100, 0, 0), T(101, 0, 0), V(0, 0, 0), V(0, 2, 0), VS(0, 0, 0), A(0, 0, 0),
                A(0, 2, 0), A(101, 0, 0), ADV(301), ADV(21300), SW]
     keys = [[0, 0, 0], [0, 2, 0], [0, 0, 1], [100, 0, 0], [101, 0, 0]]
     out = []
     for h in itertools.product(ops, repeat=depth):
         if not any(o["op"] == "sweep" for o in h):
             continue
-        if h[0]["op"] in ("sweep", "advance", "active"):
+        if h[0]["op"] in ("sweep", "advance", "active", "validate_stale"):
             continue
         out.append(mk_case(list(h), extra_keys=keys))
     return out
@@ -258,7 +267,7 @@ def random_case(rng, nops, big):
             k = rng.choice(keys)
             o = rng.choice([T, T, T, TNX])(*k)
         elif x < 0.45:
-            o = V(*rng.choice(keys))
+            o = rng.choice([V, V, VS])(*rng.choice(keys))
         elif x < 0.57:
             live = sorted(spec.tracked())
             k = rng.choice(live) if live and rng.random() < 0.8 else rng.choice(keys)
@@ -347,6 +356,8 @@ def gop(o):
         return "TrackNX " + gkey((o["s"], o["t"], o["p"]))
     if op == "validate":
         return "Validate " + gkey((o["s"], o["t"], o["p"]))
+    if op == "validate_stale":
+        return "ValidateStale " + gkey((o["s"], o["t"], o["p"]))
     if op == "active":
         return "MarkActive " + gkey((o["s"], o["t"], o["p"]))
     if op == "advance":
@@ -411,9 +422,9 @@ def run(ctx):
         "removeRegistration/getRegistrations/countRegistrations), tied to /repo's working tree by the correspondence run",
         "Go in-package driver harness/inpkg/c08/registry_driver_test.go, the case generator and the JSON->Gallina emitter",
     ]
-    ctx.cov["rule"] = ("a case is a history of track / track-if-new / validate / connect / advance / sweep / lookup / count operations "
+    ctx.cov["rule"] = ("a case is a history of track / track-if-new / validate (own or foreign object) / connect / advance / sweep / lookup / count operations "
                        "executed on the real RegisteredDecoys; it is counted as non-trivial if it is hash-distinct and contains at "
-                       "least one sweep and one registration; exhaustive histories of length 3-5 over small alphabets (one secret "
+                       "least one sweep and one registration; exhaustive histories of length 3-4 (quick) or 3-6 (thorough) over small alphabets (one secret "
                        "with two transports, two phantoms, two secrets with a common id prefix) plus random histories of up to "
                        "200 operations over up to 8 secrets x 5 transports x 4 phantoms, with time steps aimed at the 10 min / 6 h "
                        "limits +- 1 s")
@@ -430,7 +441,7 @@ def run(ctx):
     terms, kept_cases = [], []
     for idx, (case, r) in enumerate(zip(cases, res)):
         nsweep = sum(1 for o in case["ops"] if o["op"] == "sweep")
-        nreg = sum(1 for o in case["ops"] if o["op"] in ("track", "tracknx", "validate"))
+        nreg = sum(1 for o in case["ops"] if o["op"] in ("track", "tracknx", "validate", "validate_stale"))
         removed = any(a["total"] > b["total"] for a, b in zip(r["obs"], r["obs"][1:]))
         kind = "corpus" if idx < n_fixed else ("exhaustive" if idx < n_exh else "random")
         kind += "/expiring" if removed else ("/sweep" if nsweep else "/nosweep")
@@ -457,7 +468,7 @@ def run(ctx):
             ctx.sample({"ops": cases[i]["ops"][:12], "last_observation": res[i]["obs"][-1] if res[i]["obs"] else None})
     if ctx.replay is None:
         ctx.require_kinds(["corpus/expiring", "exhaustive/expiring", "exhaustive/sweep", "random/expiring",
-                           "op/track", "op/tracknx", "op/validate", "op/active", "op/advance", "op/sweep", "op/lookup", "op/count"])
+                           "op/track", "op/tracknx", "op/validate", "op/validate_stale", "op/active", "op/advance", "op/sweep", "op/lookup", "op/count"])
     mm = ctx.coq_mismatches("hist", HEADER, terms, "chk", shard=max(60, (len(terms) + 15) // 16), need_vo=["C08/Run.vo"])
     if mm:
         ctx.cov["mismatches"] += len(mm)
